@@ -121,6 +121,24 @@ type target struct {
 	detail  func() map[string]any // witness context (key seed, message, ...)
 }
 
+// sigStringClasses are the alterations of the signature *string*; a panic on
+// any of them is keyed C02:panic:<subject>:<entry>.  Panics on other kinds of
+// input (list shapes, keys, contexts) carry the class, so that they are not
+// folded into a finding about signature strings.
+var sigStringClasses = map[string]bool{
+	"trunc": true, "trunc-spare-cap": true, "append": true, "bitflip": true, "first-byte": true,
+	"s-plus-l": true, "hint-order": true, "hint-padding": true, "random-sig": true, "zero-sig": true, "ones-sig": true,
+	"agg-input-append": true, "agg-input-trunc": true, "agg-input-first-byte": true,
+	"component-only": true, "component-mix": true, "component-swap": true,
+}
+
+func panicKey(subject, entry, class string) string {
+	if sigStringClasses[class] {
+		return "C02:panic:" + subject + ":" + entry
+	}
+	return "C02:panic:" + subject + ":" + entry + ":" + class
+}
+
 // expectReject runs one altered verification and classifies the outcome.
 func (tg *target) expectReject(class string, sig []byte, extra ...any) {
 	var ok bool
@@ -140,7 +158,7 @@ func (tg *target) expectReject(class string, sig []byte, extra ...any) {
 		for k, v := range lib.D(extra...) {
 			d[k] = v
 		}
-		lib.Violation("C02:panic:"+tg.subject+":"+tg.entry, tg.mon, d)
+		lib.Violation(panicKey(tg.subject, tg.entry, class), tg.mon, d)
 	case ok:
 		lib.Count("altered-accepted")
 		d := tg.detail()
